@@ -56,11 +56,11 @@ def run_harness(binary, args, timeout=3600):
 
 
 def validate(model, trace_file):
-    drv = os.path.join(C.LEAN, '.lake/build/bin/ymdriver')
+    drv = os.path.join(C.LEAN, '.lake/build/bin/ymdriver_' + model)
     if not os.path.exists(drv):
         return None
     with open(trace_file) as f:
-        r = subprocess.run([drv, 'validate', model], stdin=f, capture_output=True, text=True)
+        r = subprocess.run([drv], stdin=f, capture_output=True, text=True)
     ok = 0
     mism = []
     rules = {}
@@ -87,7 +87,7 @@ def concurrent_check(res, prop, tier, harness_src, model, expected_rules, quick_
                      known=None, unmodelled_ok=(), lib_kind='fiber'):
     """The whole T3 + verdict logic for one property. `known`: list of dict(match=<regex on 'scenario | message'>, what=<text>)."""
     problems = extract_kernels()
-    ok, broken = C.proof_stage(res, prop)
+    ok, broken = C.proof_stage(res, prop, drivers=['ymdriver_' + model])
     broken = ['translator x_kernels: ' + p for p in problems] + broken
     binary = C.build_harness(prop.lower(), lib_kind, [harness_src])
     trace_file = os.path.join(C.WORK, '%s_%s_traces.txt' % (prop, tier))
